@@ -101,8 +101,10 @@ def events_for_case(a, cid, gam, K, ids):
         return e
 
     pos, neg = gam.arr(a["p"]), gam.arr(a["n"])
+    # the flag as a Python bool, a NumPy bool (e.g. the result of np.all(np.diff(x) >= 0)) or an int
+    flag = [a["sorted"], np.bool_(a["sorted"]), int(a["sorted"])][cid % 3]
     kw = dict(nb_easy_pos=a["ep"], nb_easy_neg=a["en"], score_class=a["sc"],
-              equal_class=a["ec"], is_sorted=a["sorted"])
+              equal_class=a["ec"], is_sorted=flag)
     via_labels = cid % 2 == 1
     e = ev("New", h=1, args=a, via="from_labels" if via_labels else "init",
            post={"pos": [], "neg": [], "ep": 0, "en": 0, "sc": "pos", "ec": "pos"})
@@ -152,6 +154,20 @@ def events_for_case(a, cid, gam, K, ids):
             e2["exc"] = f"{type(ex).__name__}: {ex}"[:200]
 
     q_cm(1, s)
+    if cid % 4001 == 7 and gam.name != "big_int":
+        # ONE vectorised call with more than 2^20 thresholds in no particular order; 240 positions of the
+        # result are recorded (first, last, random ones)
+        t2s, ths = thresholds(K, gam, full=True)
+        rnd = np.random.RandomState(cid)
+        idx = rnd.randint(0, len(ths), (1 << 20) + 4097)
+        e = ev("cm", h=1, t2=[], out=[], big=int(len(idx)))
+        try:
+            m = np.asarray(s.cm(np.array(ths)[idx]).matrix)
+            pick = np.concatenate([[0, len(idx) - 1], rnd.randint(0, len(idx), 238)])
+            e["t2"] = [t2s[int(idx[i])] for i in pick]
+            e["out"] = cm_rows(m[pick]) if m.shape == (len(idx), 2, 2) else []
+        except Exception as ex:  # noqa
+            e["exc"] = f"{type(ex).__name__}: {ex}"[:200]
 
     t2s, ths = thresholds(K, gam, full=False)
     e = ev("rates", h=1, t2=t2s, out={m: [] for m in RATE_NAMES})
@@ -376,6 +392,8 @@ def run(ctx: core.Ctx):
             gams = [gamma.ident_bool()]          # hard 0/1 decisions stored as booleans
         elif cid % 7 == 3:
             gams = [gamma.big_int()]             # int64 scores beyond float64's integer range
+        elif cid % 11 == 5:                      # narrow integers saturating at the top of their dtype
+            gams = [gamma.int_top(K, [np.uint8, np.int8, np.int16, np.uint16][(cid // 11) % 4])]
         for g in gams:
             events += events_for_case(a, cid, g, K, ids)
         k = nontrivial_key(a)
